@@ -30,8 +30,11 @@ type Guided struct {
 	// InSeg, if non-nil, is called for every []byte the library hands out;
 	// it must report whether the slice lies inside the supplied segments.
 	InSeg func(b []byte) bool
-	// Levels counts successful non-null dereferences by nesting level.
+	// MaxLevel is the deepest nesting level visited.
 	MaxLevel int
+	// Budget, if > 0, stops the walk (silently) after that many comparisons
+	// (value DAGs with sharing can be exponentially large as trees).
+	Budget int64
 }
 
 func NewGuided() *Guided { return &Guided{MaxScan: 96} }
@@ -44,6 +47,9 @@ func mm(path, api, format string, a ...interface{}) *Mismatch {
 func (g *Guided) Ptr(p capnp.Ptr, v *ref.V, path string, level int) *Mismatch {
 	if level > g.MaxLevel {
 		g.MaxLevel = level
+	}
+	if g.Budget > 0 && g.Compared > g.Budget {
+		return nil
 	}
 	g.Compared++
 	switch v.Kind {
